@@ -112,3 +112,91 @@ Example C18_example :
      [EvUser 1 (x_pub 1) None; EvService 10 4096 0; EvWriteComplete 10; EvClose 20]))
   = [[]; []; []; []; []; []; []; [(2, CompErr EMaxInterruptedRetriesExceeded)]].
 Proof. vm_compute. split; reflexivity. Qed.
+
+(* ---- run level (EngineProofs/TimersRun*.v): statements about EVERY state reachable from init by any event history
+   (hypotheses: component invariants comps_ok, ok_cfg, Forall ok_event); the C18_instance_* forms are about the
+   concrete engine of Engine/Instance.v with comps_ok discharged.
+   C18_run_armed: every operation awaiting an acknowledgement (s_ppub / s_pnon) that is a user operation with ack
+     timeout T, completely written at w (op_ext) with w + T <= IMAX has the record (i, w + T);
+   C18_run_timeout_fires: ... so the first successful service call at or after w + T removes (fails) it;
+   C18_run_records_sound / C18_epoch_spec / C18_run_record_written / C18_run_no_record / C18_run_tmo_empty: every
+     record is w + T for a service time w after the last close / reset and the ack timeout T of a user operation whose
+     latest complete write happened at a service call after the last close / reset (queued time and writes on earlier
+     connections arm nothing); operations without timeout, internal ones, never-written ones have no record; no record
+     in Disconnected / PendingConnack;
+   C18_run_intr_count: op_intr = number of closes of the history that caught the operation in s_ppub / s_pnon (ghost
+     intr_count, by recursion over the history);  C18_run_limit: never above the limit;
+   C18_run_maxintr_sound / _complete: MaxInterruptedRetriesExceeded is reported only by a close that catches a user
+     operation whose count is exactly the limit (its (limit+1)-th interruption), and that close removes the operation.
+   C18_run_example_*: vm_compute witnesses (premises satisfiable, conclusions non-trivial). ---- *)
+From GM Require Import EngineProofs.WFDefs EngineProofs.TimersRun EngineProofs.TimersRunThms EngineProofs.TimersRunRetry EngineProofs.TimersRunInstance EngineProofs.TimersRunWitness.
+
+Theorem C18_run_armed : forall (enc : Type) (enc_reset : version -> packet -> resolution -> outcome enc) (enc_call : enc -> N -> N -> outcome (bytes * enc)) (enc_done : enc -> bool) (dec : Type) (dec_init : dec) (dec_feed : version -> N -> dec -> bytes -> dec * list packet * outcome unit) (ores : Type) (ores_reset : ores -> N -> ores) (ores_resolve : ores -> option N -> bytes -> outcome (ores * resolution)) (ires : Type) (ires_reset : ires -> ires) (ires_resolve : ires -> option N -> bytes -> outcome (ires * bytes)) (v_out : option settings -> connect_opts -> resolution -> packet -> outcome unit) (v_in : option settings -> packet -> outcome unit) (cfg : config) (HC : comps_ok enc enc_reset enc_call dec dec_init dec_feed ores ores_reset ores_resolve ires ires_reset ires_resolve v_out v_in), ok_cfg cfg -> forall (o0 : ores) (i0 : ires) (h : list event), @ores_inv enc enc_reset enc_call dec dec_init dec_feed ores ores_reset ores_resolve ires ires_reset ires_resolve v_out v_in HC o0 -> @ires_inv enc enc_reset enc_call dec dec_init dec_feed ores ores_reset ores_resolve ires ires_reset ires_resolve v_out v_in HC i0 -> @Forall event ok_event h -> forall (p i : N) (o : op) (T w : N), @In (N * N) (p, i) (@s_ppub enc dec ores ires (@fst (state enc dec ores ires) (list output) (run enc enc_reset enc_call enc_done dec dec_init dec_feed ores ores_reset ores_resolve ires ires_reset ires_resolve v_out v_in cfg (init enc dec dec_init ores ires o0 i0) h))) \/ @In (N * N) (p, i) (@s_pnon enc dec ores ires (@fst (state enc dec ores ires) (list output) (run enc enc_reset enc_call enc_done dec dec_init dec_feed ores ores_reset ores_resolve ires ires_reset ires_resolve v_out v_in cfg (init enc dec dec_init ores ires o0 i0) h))) -> @lookup op i (@s_ops enc dec ores ires (@fst (state enc dec ores ires) (list output) (run enc enc_reset enc_call enc_done dec dec_init dec_feed ores ores_reset ores_resolve ires ires_reset ires_resolve v_out v_in cfg (init enc dec dec_init ores ires o0 i0) h))) = @Some op o -> op_user o = true -> op_timeout o = @Some N T -> op_ext o = @Some N w -> w + T <= IMAX -> @In (N * N) (i, w + T) (@s_tmo enc dec ores ires (@fst (state enc dec ores ires) (list output) (run enc enc_reset enc_call enc_done dec dec_init dec_feed ores ores_reset ores_resolve ires ires_reset ires_resolve v_out v_in cfg (init enc dec dec_init ores ires o0 i0) h))).
+Proof. exact @run_armed. Qed.
+
+Theorem C18_run_timeout_fires : forall (enc : Type) (enc_reset : version -> packet -> resolution -> outcome enc) (enc_call : enc -> N -> N -> outcome (bytes * enc)) (enc_done : enc -> bool) (dec : Type) (dec_init : dec) (dec_feed : version -> N -> dec -> bytes -> dec * list packet * outcome unit) (ores : Type) (ores_reset : ores -> N -> ores) (ores_resolve : ores -> option N -> bytes -> outcome (ores * resolution)) (ires : Type) (ires_reset : ires -> ires) (ires_resolve : ires -> option N -> bytes -> outcome (ires * bytes)) (v_out : option settings -> connect_opts -> resolution -> packet -> outcome unit) (v_in : option settings -> packet -> outcome unit) (cfg : config) (HC : comps_ok enc enc_reset enc_call dec dec_init dec_feed ores ores_reset ores_resolve ires ires_reset ires_resolve v_out v_in), ok_cfg cfg -> forall (o0 : ores) (i0 : ires) (h : list event), @ores_inv enc enc_reset enc_call dec dec_init dec_feed ores ores_reset ores_resolve ires ires_reset ires_resolve v_out v_in HC o0 -> @ires_inv enc enc_reset enc_call dec dec_init dec_feed ores ores_reset ores_resolve ires ires_reset ires_resolve v_out v_in HC i0 -> @Forall event ok_event h -> forall (p i : N) (o : op) (T w now cap fill : N), @In (N * N) (p, i) (@s_ppub enc dec ores ires (@fst (state enc dec ores ires) (list output) (run enc enc_reset enc_call enc_done dec dec_init dec_feed ores ores_reset ores_resolve ires ires_reset ires_resolve v_out v_in cfg (init enc dec dec_init ores ires o0 i0) h))) \/ @In (N * N) (p, i) (@s_pnon enc dec ores ires (@fst (state enc dec ores ires) (list output) (run enc enc_reset enc_call enc_done dec dec_init dec_feed ores ores_reset ores_resolve ires ires_reset ires_resolve v_out v_in cfg (init enc dec dec_init ores ires o0 i0) h))) -> @lookup op i (@s_ops enc dec ores ires (@fst (state enc dec ores ires) (list output) (run enc enc_reset enc_call enc_done dec dec_init dec_feed ores ores_reset ores_resolve ires ires_reset ires_resolve v_out v_in cfg (init enc dec dec_init ores ires o0 i0) h))) = @Some op o -> op_user o = true -> op_timeout o = @Some N T -> op_ext o = @Some N w -> w + T <= IMAX -> w + T <= now -> o_res (@snd (state enc dec ores ires) output (step enc enc_reset enc_call enc_done dec dec_init dec_feed ores ores_reset ores_resolve ires ires_reset ires_resolve v_out v_in cfg (@fst (state enc dec ores ires) (list output) (run enc enc_reset enc_call enc_done dec dec_init dec_feed ores ores_reset ores_resolve ires ires_reset ires_resolve v_out v_in cfg (init enc dec dec_init ores ires o0 i0) h)) (EvService now cap fill))) = @Ok unit tt -> @lookup op i (@s_ops enc dec ores ires (@fst (state enc dec ores ires) output (step enc enc_reset enc_call enc_done dec dec_init dec_feed ores ores_reset ores_resolve ires ires_reset ires_resolve v_out v_in cfg (@fst (state enc dec ores ires) (list output) (run enc enc_reset enc_call enc_done dec dec_init dec_feed ores ores_reset ores_resolve ires ires_reset ires_resolve v_out v_in cfg (init enc dec dec_init ores ires o0 i0) h)) (EvService now cap fill)))) = @None op.
+Proof. exact @run_timeout_fires. Qed.
+
+Theorem C18_run_records_sound : forall (enc : Type) (enc_reset : version -> packet -> resolution -> outcome enc) (enc_call : enc -> N -> N -> outcome (bytes * enc)) (enc_done : enc -> bool) (dec : Type) (dec_init : dec) (dec_feed : version -> N -> dec -> bytes -> dec * list packet * outcome unit) (ores : Type) (ores_reset : ores -> N -> ores) (ores_resolve : ores -> option N -> bytes -> outcome (ores * resolution)) (ires : Type) (ires_reset : ires -> ires) (ires_resolve : ires -> option N -> bytes -> outcome (ires * bytes)) (v_out : option settings -> connect_opts -> resolution -> packet -> outcome unit) (v_in : option settings -> packet -> outcome unit) (cfg : config) (HC : comps_ok enc enc_reset enc_call dec dec_init dec_feed ores ores_reset ores_resolve ires ires_reset ires_resolve v_out v_in), ok_cfg cfg -> forall (o0 : ores) (i0 : ires) (h : list event), @ores_inv enc enc_reset enc_call dec dec_init dec_feed ores ores_reset ores_resolve ires ires_reset ires_resolve v_out v_in HC o0 -> @ires_inv enc enc_reset enc_call dec dec_init dec_feed ores ores_reset ores_resolve ires ires_reset ires_resolve v_out v_in HC i0 -> @Forall event ok_event h -> forall i t : N, @In (N * N) (i, t) (@s_tmo enc dec ores ires (@fst (state enc dec ores ires) (list output) (run enc enc_reset enc_call enc_done dec dec_init dec_feed ores ores_reset ores_resolve ires ires_reset ires_resolve v_out v_in cfg (init enc dec dec_init ores ires o0 i0) h))) -> t <= IMAX /\ (exists w T : N, t = w + T /\ @In N w (epoch h) /\ (forall o : op, @lookup op i (@s_ops enc dec ores ires (@fst (state enc dec ores ires) (list output) (run enc enc_reset enc_call enc_done dec dec_init dec_feed ores ores_reset ores_resolve ires ires_reset ires_resolve v_out v_in cfg (init enc dec dec_init ores ires o0 i0) h))) = @Some op o -> op_user o = true /\ op_timeout o = @Some N T /\ (exists we : N, op_ext o = @Some N we /\ @In N we (epoch h)))).
+Proof. exact @run_records_sound. Qed.
+
+Theorem C18_epoch_spec : forall (h : list event) (w : N), @In N w (epoch h) -> exists (h1 : list event) (cap fill : N) (h2 : list event), h = h1 ++ EvService w cap fill :: h2 /\ @Forall event no_close h2.
+Proof. exact @epoch_spec. Qed.
+
+Theorem C18_run_record_written : forall (enc : Type) (enc_reset : version -> packet -> resolution -> outcome enc) (enc_call : enc -> N -> N -> outcome (bytes * enc)) (enc_done : enc -> bool) (dec : Type) (dec_init : dec) (dec_feed : version -> N -> dec -> bytes -> dec * list packet * outcome unit) (ores : Type) (ores_reset : ores -> N -> ores) (ores_resolve : ores -> option N -> bytes -> outcome (ores * resolution)) (ires : Type) (ires_reset : ires -> ires) (ires_resolve : ires -> option N -> bytes -> outcome (ires * bytes)) (v_out : option settings -> connect_opts -> resolution -> packet -> outcome unit) (v_in : option settings -> packet -> outcome unit) (cfg : config) (HC : comps_ok enc enc_reset enc_call dec dec_init dec_feed ores ores_reset ores_resolve ires ires_reset ires_resolve v_out v_in), ok_cfg cfg -> forall (o0 : ores) (i0 : ires) (h : list event), @ores_inv enc enc_reset enc_call dec dec_init dec_feed ores ores_reset ores_resolve ires ires_reset ires_resolve v_out v_in HC o0 -> @ires_inv enc enc_reset enc_call dec dec_init dec_feed ores ores_reset ores_resolve ires ires_reset ires_resolve v_out v_in HC i0 -> @Forall event ok_event h -> forall (i t : N) (o : op), @In (N * N) (i, t) (@s_tmo enc dec ores ires (@fst (state enc dec ores ires) (list output) (run enc enc_reset enc_call enc_done dec dec_init dec_feed ores ores_reset ores_resolve ires ires_reset ires_resolve v_out v_in cfg (init enc dec dec_init ores ires o0 i0) h))) -> @lookup op i (@s_ops enc dec ores ires (@fst (state enc dec ores ires) (list output) (run enc enc_reset enc_call enc_done dec dec_init dec_feed ores ores_reset ores_resolve ires ires_reset ires_resolve v_out v_in cfg (init enc dec dec_init ores ires o0 i0) h))) = @Some op o -> exists (we : N) (h1 : list event) (cap fill : N) (h2 : list event), op_ext o = @Some N we /\ h = h1 ++ EvService we cap fill :: h2 /\ @Forall event no_close h2.
+Proof. exact @run_record_written. Qed.
+
+Theorem C18_run_no_record : forall (enc : Type) (enc_reset : version -> packet -> resolution -> outcome enc) (enc_call : enc -> N -> N -> outcome (bytes * enc)) (enc_done : enc -> bool) (dec : Type) (dec_init : dec) (dec_feed : version -> N -> dec -> bytes -> dec * list packet * outcome unit) (ores : Type) (ores_reset : ores -> N -> ores) (ores_resolve : ores -> option N -> bytes -> outcome (ores * resolution)) (ires : Type) (ires_reset : ires -> ires) (ires_resolve : ires -> option N -> bytes -> outcome (ires * bytes)) (v_out : option settings -> connect_opts -> resolution -> packet -> outcome unit) (v_in : option settings -> packet -> outcome unit) (cfg : config) (HC : comps_ok enc enc_reset enc_call dec dec_init dec_feed ores ores_reset ores_resolve ires ires_reset ires_resolve v_out v_in), ok_cfg cfg -> forall (o0 : ores) (i0 : ires) (h : list event), @ores_inv enc enc_reset enc_call dec dec_init dec_feed ores ores_reset ores_resolve ires ires_reset ires_resolve v_out v_in HC o0 -> @ires_inv enc enc_reset enc_call dec dec_init dec_feed ores ores_reset ores_resolve ires ires_reset ires_resolve v_out v_in HC i0 -> @Forall event ok_event h -> forall (i : N) (o : op), @lookup op i (@s_ops enc dec ores ires (@fst (state enc dec ores ires) (list output) (run enc enc_reset enc_call enc_done dec dec_init dec_feed ores ores_reset ores_resolve ires ires_reset ires_resolve v_out v_in cfg (init enc dec dec_init ores ires o0 i0) h))) = @Some op o -> op_user o = false \/ op_timeout o = @None N \/ op_ext o = @None N -> forall t : N, ~ @In (N * N) (i, t) (@s_tmo enc dec ores ires (@fst (state enc dec ores ires) (list output) (run enc enc_reset enc_call enc_done dec dec_init dec_feed ores ores_reset ores_resolve ires ires_reset ires_resolve v_out v_in cfg (init enc dec dec_init ores ires o0 i0) h))).
+Proof. exact @run_no_record. Qed.
+
+Theorem C18_run_tmo_empty : forall (enc : Type) (enc_reset : version -> packet -> resolution -> outcome enc) (enc_call : enc -> N -> N -> outcome (bytes * enc)) (enc_done : enc -> bool) (dec : Type) (dec_init : dec) (dec_feed : version -> N -> dec -> bytes -> dec * list packet * outcome unit) (ores : Type) (ores_reset : ores -> N -> ores) (ores_resolve : ores -> option N -> bytes -> outcome (ores * resolution)) (ires : Type) (ires_reset : ires -> ires) (ires_resolve : ires -> option N -> bytes -> outcome (ires * bytes)) (v_out : option settings -> connect_opts -> resolution -> packet -> outcome unit) (v_in : option settings -> packet -> outcome unit) (cfg : config) (HC : comps_ok enc enc_reset enc_call dec dec_init dec_feed ores ores_reset ores_resolve ires ires_reset ires_resolve v_out v_in), ok_cfg cfg -> forall (o0 : ores) (i0 : ires) (h : list event), @ores_inv enc enc_reset enc_call dec dec_init dec_feed ores ores_reset ores_resolve ires ires_reset ires_resolve v_out v_in HC o0 -> @ires_inv enc enc_reset enc_call dec dec_init dec_feed ores ores_reset ores_resolve ires ires_reset ires_resolve v_out v_in HC i0 -> @Forall event ok_event h -> @s_st enc dec ores ires (@fst (state enc dec ores ires) (list output) (run enc enc_reset enc_call enc_done dec dec_init dec_feed ores ores_reset ores_resolve ires ires_reset ires_resolve v_out v_in cfg (init enc dec dec_init ores ires o0 i0) h)) = Disconnected \/ @s_st enc dec ores ires (@fst (state enc dec ores ires) (list output) (run enc enc_reset enc_call enc_done dec dec_init dec_feed ores ores_reset ores_resolve ires ires_reset ires_resolve v_out v_in cfg (init enc dec dec_init ores ires o0 i0) h)) = PendingConnack -> @s_tmo enc dec ores ires (@fst (state enc dec ores ires) (list output) (run enc enc_reset enc_call enc_done dec dec_init dec_feed ores ores_reset ores_resolve ires ires_reset ires_resolve v_out v_in cfg (init enc dec dec_init ores ires o0 i0) h)) = [].
+Proof. exact @run_tmo_empty. Qed.
+
+Theorem C18_run_intr_count : forall (enc : Type) (enc_reset : version -> packet -> resolution -> outcome enc) (enc_call : enc -> N -> N -> outcome (bytes * enc)) (enc_done : enc -> bool) (dec : Type) (dec_init : dec) (dec_feed : version -> N -> dec -> bytes -> dec * list packet * outcome unit) (ores : Type) (ores_reset : ores -> N -> ores) (ores_resolve : ores -> option N -> bytes -> outcome (ores * resolution)) (ires : Type) (ires_reset : ires -> ires) (ires_resolve : ires -> option N -> bytes -> outcome (ires * bytes)) (v_out : option settings -> connect_opts -> resolution -> packet -> outcome unit) (v_in : option settings -> packet -> outcome unit) (cfg : config) (HC : comps_ok enc enc_reset enc_call dec dec_init dec_feed ores ores_reset ores_resolve ires ires_reset ires_resolve v_out v_in), ok_cfg cfg -> forall (o0 : ores) (i0 : ires) (h : list event), @ores_inv enc enc_reset enc_call dec dec_init dec_feed ores ores_reset ores_resolve ires ires_reset ires_resolve v_out v_in HC o0 -> @ires_inv enc enc_reset enc_call dec dec_init dec_feed ores ores_reset ores_resolve ires ires_reset ires_resolve v_out v_in HC i0 -> @Forall event ok_event h -> forall (i : N) (o : op), @lookup op i (@s_ops enc dec ores ires (@fst (state enc dec ores ires) (list output) (run enc enc_reset enc_call enc_done dec dec_init dec_feed ores ores_reset ores_resolve ires ires_reset ires_resolve v_out v_in cfg (init enc dec dec_init ores ires o0 i0) h))) = @Some op o -> op_intr o = intr_count enc enc_reset enc_call enc_done dec dec_init dec_feed ores ores_reset ores_resolve ires ires_reset ires_resolve v_out v_in cfg (init enc dec dec_init ores ires o0 i0) h i.
+Proof. exact @run_intr_count. Qed.
+
+Theorem C18_run_limit : forall (enc : Type) (enc_reset : version -> packet -> resolution -> outcome enc) (enc_call : enc -> N -> N -> outcome (bytes * enc)) (enc_done : enc -> bool) (dec : Type) (dec_init : dec) (dec_feed : version -> N -> dec -> bytes -> dec * list packet * outcome unit) (ores : Type) (ores_reset : ores -> N -> ores) (ores_resolve : ores -> option N -> bytes -> outcome (ores * resolution)) (ires : Type) (ires_reset : ires -> ires) (ires_resolve : ires -> option N -> bytes -> outcome (ires * bytes)) (v_out : option settings -> connect_opts -> resolution -> packet -> outcome unit) (v_in : option settings -> packet -> outcome unit) (cfg : config) (HC : comps_ok enc enc_reset enc_call dec dec_init dec_feed ores ores_reset ores_resolve ires ires_reset ires_resolve v_out v_in), ok_cfg cfg -> forall (o0 : ores) (i0 : ires) (h : list event), @ores_inv enc enc_reset enc_call dec dec_init dec_feed ores ores_reset ores_resolve ires ires_reset ires_resolve v_out v_in HC o0 -> @ires_inv enc enc_reset enc_call dec dec_init dec_feed ores ores_reset ores_resolve ires ires_reset ires_resolve v_out v_in HC i0 -> @Forall event ok_event h -> forall limit : N, cf_retry cfg = @Some N limit -> forall (i : N) (o : op), @lookup op i (@s_ops enc dec ores ires (@fst (state enc dec ores ires) (list output) (run enc enc_reset enc_call enc_done dec dec_init dec_feed ores ores_reset ores_resolve ires ires_reset ires_resolve v_out v_in cfg (init enc dec dec_init ores ires o0 i0) h))) = @Some op o -> op_intr o <= limit.
+Proof. exact @run_limit. Qed.
+
+Theorem C18_run_maxintr_sound : forall (enc : Type) (enc_reset : version -> packet -> resolution -> outcome enc) (enc_call : enc -> N -> N -> outcome (bytes * enc)) (enc_done : enc -> bool) (dec : Type) (dec_init : dec) (dec_feed : version -> N -> dec -> bytes -> dec * list packet * outcome unit) (ores : Type) (ores_reset : ores -> N -> ores) (ores_resolve : ores -> option N -> bytes -> outcome (ores * resolution)) (ires : Type) (ires_reset : ires -> ires) (ires_resolve : ires -> option N -> bytes -> outcome (ires * bytes)) (v_out : option settings -> connect_opts -> resolution -> packet -> outcome unit) (v_in : option settings -> packet -> outcome unit) (cfg : config) (HC : comps_ok enc enc_reset enc_call dec dec_init dec_feed ores ores_reset ores_resolve ires ires_reset ires_resolve v_out v_in), ok_cfg cfg -> forall (o0 : ores) (i0 : ires) (h : list event), @ores_inv enc enc_reset enc_call dec dec_init dec_feed ores ores_reset ores_resolve ires ires_reset ires_resolve v_out v_in HC o0 -> @ires_inv enc enc_reset enc_call dec dec_init dec_feed ores ores_reset ores_resolve ires ires_reset ires_resolve v_out v_in HC i0 -> @Forall event ok_event h -> forall now i : N, @In (N * completion) (i, CompErr EMaxInterruptedRetriesExceeded) (o_done (@snd (state enc dec ores ires) output (step enc enc_reset enc_call enc_done dec dec_init dec_feed ores ores_reset ores_resolve ires ires_reset ires_resolve v_out v_in cfg (@fst (state enc dec ores ires) (list output) (run enc enc_reset enc_call enc_done dec dec_init dec_feed ores ores_reset ores_resolve ires ires_reset ires_resolve v_out v_in cfg (init enc dec dec_init ores ires o0 i0) h)) (EvClose now)))) -> @s_st enc dec ores ires (@fst (state enc dec ores ires) (list output) (run enc enc_reset enc_call enc_done dec dec_init dec_feed ores ores_reset ores_resolve ires ires_reset ires_resolve v_out v_in cfg (init enc dec dec_init ores ires o0 i0) h)) <> Disconnected /\ (exists (limit : N) (o : op), cf_retry cfg = @Some N limit /\ @lookup op i (@s_ops enc dec ores ires (@fst (state enc dec ores ires) (list output) (run enc enc_reset enc_call enc_done dec dec_init dec_feed ores ores_reset ores_resolve ires ires_reset ires_resolve v_out v_in cfg (init enc dec dec_init ores ires o0 i0) h))) = @Some op o /\ op_user o = true /\ @In N i (pending_ids enc dec ores ires (@fst (state enc dec ores ires) (list output) (run enc enc_reset enc_call enc_done dec dec_init dec_feed ores ores_reset ores_resolve ires ires_reset ires_resolve v_out v_in cfg (init enc dec dec_init ores ires o0 i0) h))) /\ op_intr o = limit).
+Proof. exact @run_maxintr_sound. Qed.
+
+Theorem C18_run_maxintr_complete : forall (enc : Type) (enc_reset : version -> packet -> resolution -> outcome enc) (enc_call : enc -> N -> N -> outcome (bytes * enc)) (enc_done : enc -> bool) (dec : Type) (dec_init : dec) (dec_feed : version -> N -> dec -> bytes -> dec * list packet * outcome unit) (ores : Type) (ores_reset : ores -> N -> ores) (ores_resolve : ores -> option N -> bytes -> outcome (ores * resolution)) (ires : Type) (ires_reset : ires -> ires) (ires_resolve : ires -> option N -> bytes -> outcome (ires * bytes)) (v_out : option settings -> connect_opts -> resolution -> packet -> outcome unit) (v_in : option settings -> packet -> outcome unit) (cfg : config) (HC : comps_ok enc enc_reset enc_call dec dec_init dec_feed ores ores_reset ores_resolve ires ires_reset ires_resolve v_out v_in), ok_cfg cfg -> forall (o0 : ores) (i0 : ires) (h : list event), @ores_inv enc enc_reset enc_call dec dec_init dec_feed ores ores_reset ores_resolve ires ires_reset ires_resolve v_out v_in HC o0 -> @ires_inv enc enc_reset enc_call dec dec_init dec_feed ores ores_reset ores_resolve ires ires_reset ires_resolve v_out v_in HC i0 -> @Forall event ok_event h -> forall (now i : N) (o : op) (limit : N), @s_st enc dec ores ires (@fst (state enc dec ores ires) (list output) (run enc enc_reset enc_call enc_done dec dec_init dec_feed ores ores_reset ores_resolve ires ires_reset ires_resolve v_out v_in cfg (init enc dec dec_init ores ires o0 i0) h)) <> Disconnected -> cf_retry cfg = @Some N limit -> @lookup op i (@s_ops enc dec ores ires (@fst (state enc dec ores ires) (list output) (run enc enc_reset enc_call enc_done dec dec_init dec_feed ores ores_reset ores_resolve ires ires_reset ires_resolve v_out v_in cfg (init enc dec dec_init ores ires o0 i0) h))) = @Some op o -> @In N i (pending_ids enc dec ores ires (@fst (state enc dec ores ires) (list output) (run enc enc_reset enc_call enc_done dec dec_init dec_feed ores ores_reset ores_resolve ires ires_reset ires_resolve v_out v_in cfg (init enc dec dec_init ores ires o0 i0) h))) -> op_intr o = limit -> @lookup op i (@s_ops enc dec ores ires (@fst (state enc dec ores ires) output (step enc enc_reset enc_call enc_done dec dec_init dec_feed ores ores_reset ores_resolve ires ires_reset ires_resolve v_out v_in cfg (@fst (state enc dec ores ires) (list output) (run enc enc_reset enc_call enc_done dec dec_init dec_feed ores ores_reset ores_resolve ires ires_reset ires_resolve v_out v_in cfg (init enc dec dec_init ores ires o0 i0) h)) (EvClose now)))) = @None op.
+Proof. exact @run_maxintr_complete. Qed.
+
+Theorem C18_instance_armed : forall cfg : config, ok_cfg cfg -> forall (k : resolver_kind) (h : list event), @Forall event ok_event h -> forall (p i : N) (o : op) (T w : N), @In (N * N) (p, i) (@s_ppub enc Framing.decoder ores Inbound.ires (@fst istate (list output) (i_run cfg (i_init cfg k) h))) \/ @In (N * N) (p, i) (@s_pnon enc Framing.decoder ores Inbound.ires (@fst istate (list output) (i_run cfg (i_init cfg k) h))) -> @lookup op i (@s_ops enc Framing.decoder ores Inbound.ires (@fst istate (list output) (i_run cfg (i_init cfg k) h))) = @Some op o -> op_user o = true -> op_timeout o = @Some N T -> op_ext o = @Some N w -> w + T <= IMAX -> @In (N * N) (i, w + T) (@s_tmo enc Framing.decoder ores Inbound.ires (@fst istate (list output) (i_run cfg (i_init cfg k) h))).
+Proof. exact @instance_run_armed. Qed.
+
+Theorem C18_instance_timeout_fires : forall cfg : config, ok_cfg cfg -> forall (k : resolver_kind) (h : list event), @Forall event ok_event h -> forall (p i : N) (o : op) (T w now cap fill : N), @In (N * N) (p, i) (@s_ppub enc Framing.decoder ores Inbound.ires (@fst istate (list output) (i_run cfg (i_init cfg k) h))) \/ @In (N * N) (p, i) (@s_pnon enc Framing.decoder ores Inbound.ires (@fst istate (list output) (i_run cfg (i_init cfg k) h))) -> @lookup op i (@s_ops enc Framing.decoder ores Inbound.ires (@fst istate (list output) (i_run cfg (i_init cfg k) h))) = @Some op o -> op_user o = true -> op_timeout o = @Some N T -> op_ext o = @Some N w -> w + T <= IMAX -> w + T <= now -> o_res (@snd istate output (i_step cfg (@fst istate (list output) (i_run cfg (i_init cfg k) h)) (EvService now cap fill))) = @Ok unit tt -> @lookup op i (@s_ops enc Framing.decoder ores Inbound.ires (@fst istate output (i_step cfg (@fst istate (list output) (i_run cfg (i_init cfg k) h)) (EvService now cap fill)))) = @None op.
+Proof. exact @instance_run_timeout_fires. Qed.
+
+Theorem C18_instance_records_sound : forall cfg : config, ok_cfg cfg -> forall (k : resolver_kind) (h : list event), @Forall event ok_event h -> forall i t : N, @In (N * N) (i, t) (@s_tmo enc Framing.decoder ores Inbound.ires (@fst istate (list output) (i_run cfg (i_init cfg k) h))) -> t <= IMAX /\ (exists w T : N, t = w + T /\ @In N w (epoch h) /\ (forall o : op, @lookup op i (@s_ops enc Framing.decoder ores Inbound.ires (@fst istate (list output) (i_run cfg (i_init cfg k) h))) = @Some op o -> op_user o = true /\ op_timeout o = @Some N T /\ (exists we : N, op_ext o = @Some N we /\ @In N we (epoch h)))).
+Proof. exact @instance_run_records_sound. Qed.
+
+Theorem C18_instance_record_written : forall cfg : config, ok_cfg cfg -> forall (k : resolver_kind) (h : list event), @Forall event ok_event h -> forall (i t : N) (o : op), @In (N * N) (i, t) (@s_tmo enc Framing.decoder ores Inbound.ires (@fst istate (list output) (i_run cfg (i_init cfg k) h))) -> @lookup op i (@s_ops enc Framing.decoder ores Inbound.ires (@fst istate (list output) (i_run cfg (i_init cfg k) h))) = @Some op o -> exists (we : N) (h1 : list event) (cap fill : N) (h2 : list event), op_ext o = @Some N we /\ h = h1 ++ EvService we cap fill :: h2 /\ @Forall event no_close h2.
+Proof. exact @instance_run_record_written. Qed.
+
+Theorem C18_instance_no_record : forall cfg : config, ok_cfg cfg -> forall (k : resolver_kind) (h : list event), @Forall event ok_event h -> forall (i : N) (o : op), @lookup op i (@s_ops enc Framing.decoder ores Inbound.ires (@fst istate (list output) (i_run cfg (i_init cfg k) h))) = @Some op o -> op_user o = false \/ op_timeout o = @None N \/ op_ext o = @None N -> forall t : N, ~ @In (N * N) (i, t) (@s_tmo enc Framing.decoder ores Inbound.ires (@fst istate (list output) (i_run cfg (i_init cfg k) h))).
+Proof. exact @instance_run_no_record. Qed.
+
+Theorem C18_instance_tmo_empty : forall cfg : config, ok_cfg cfg -> forall (k : resolver_kind) (h : list event), @Forall event ok_event h -> @s_st enc Framing.decoder ores Inbound.ires (@fst istate (list output) (i_run cfg (i_init cfg k) h)) = Disconnected \/ @s_st enc Framing.decoder ores Inbound.ires (@fst istate (list output) (i_run cfg (i_init cfg k) h)) = PendingConnack -> @s_tmo enc Framing.decoder ores Inbound.ires (@fst istate (list output) (i_run cfg (i_init cfg k) h)) = [].
+Proof. exact @instance_run_tmo_empty. Qed.
+
+Theorem C18_instance_intr_count : forall cfg : config, ok_cfg cfg -> forall (k : resolver_kind) (h : list event), @Forall event ok_event h -> forall (i : N) (o : op), @lookup op i (@s_ops enc Framing.decoder ores Inbound.ires (@fst istate (list output) (i_run cfg (i_init cfg k) h))) = @Some op o -> op_intr o = i_intr_count cfg (i_init cfg k) h i.
+Proof. exact @instance_run_intr_count. Qed.
+
+Theorem C18_instance_limit : forall cfg : config, ok_cfg cfg -> forall (k : resolver_kind) (h : list event), @Forall event ok_event h -> forall limit : N, cf_retry cfg = @Some N limit -> forall (i : N) (o : op), @lookup op i (@s_ops enc Framing.decoder ores Inbound.ires (@fst istate (list output) (i_run cfg (i_init cfg k) h))) = @Some op o -> op_intr o <= limit.
+Proof. exact @instance_run_limit. Qed.
+
+Theorem C18_instance_maxintr_sound : forall cfg : config, ok_cfg cfg -> forall (k : resolver_kind) (h : list event), @Forall event ok_event h -> forall now i : N, @In (N * completion) (i, CompErr EMaxInterruptedRetriesExceeded) (o_done (@snd istate output (i_step cfg (@fst istate (list output) (i_run cfg (i_init cfg k) h)) (EvClose now)))) -> @s_st enc Framing.decoder ores Inbound.ires (@fst istate (list output) (i_run cfg (i_init cfg k) h)) <> Disconnected /\ (exists (limit : N) (o : op), cf_retry cfg = @Some N limit /\ @lookup op i (@s_ops enc Framing.decoder ores Inbound.ires (@fst istate (list output) (i_run cfg (i_init cfg k) h))) = @Some op o /\ op_user o = true /\ @In N i (i_pending (@fst istate (list output) (i_run cfg (i_init cfg k) h))) /\ op_intr o = limit).
+Proof. exact @instance_run_maxintr_sound. Qed.
+
+Theorem C18_instance_maxintr_complete : forall cfg : config, ok_cfg cfg -> forall (k : resolver_kind) (h : list event), @Forall event ok_event h -> forall (now i : N) (o : op) (limit : N), @s_st enc Framing.decoder ores Inbound.ires (@fst istate (list output) (i_run cfg (i_init cfg k) h)) <> Disconnected -> cf_retry cfg = @Some N limit -> @lookup op i (@s_ops enc Framing.decoder ores Inbound.ires (@fst istate (list output) (i_run cfg (i_init cfg k) h))) = @Some op o -> @In N i (i_pending (@fst istate (list output) (i_run cfg (i_init cfg k) h))) -> op_intr o = limit -> @lookup op i (@s_ops enc Framing.decoder ores Inbound.ires (@fst istate output (i_step cfg (@fst istate (list output) (i_run cfg (i_init cfg k) h)) (EvClose now)))) = @None op.
+Proof. exact @instance_run_maxintr_complete. Qed.
+
+Theorem C18_run_example_timeout : @Forall event ok_event (t_hist1 ++ [EvService 899 4096 0; EvService 900 4096 0]) /\ ok_cfg (x_cfg 0) /\ t_view (x_state (x_cfg 0) t_hist1) = (Connected, [(1, 2)], [], [(2, 900)], [(2, true, @Some N 500, @Some N 400, 0)], @None N, @None N) /\ epoch t_hist1 = [400; 0] /\ @map output (outcome unit) o_res (x_outs (x_cfg 0) (t_hist1 ++ [EvService 899 4096 0; EvService 900 4096 0])) = @repeat (outcome unit) (@Ok unit tt) 8 /\ @map output dones o_done (x_outs (x_cfg 0) (t_hist1 ++ [EvService 899 4096 0; EvService 900 4096 0])) = [[]; []; []; []; []; []; []; [(2, CompErr EAckTimeout)]] /\ @s_ops enc Framing.decoder ores Inbound.ires (x_state (x_cfg 0) (t_hist1 ++ [EvService 899 4096 0; EvService 900 4096 0])) = [].
+Proof. exact @t_timeout. Qed.
+
+Theorem C18_run_example_retry : @Forall event ok_event (t_hist3 ++ [EvClose 50]) /\ ok_cfg t_cfg2 /\ t_view (x_state t_cfg2 t_hist2) = (Disconnected, [], [], [], [(2, true, @None N, @Some N 10, 1)], @None N, @None N) /\ t_view (x_state t_cfg2 t_hist3) = (Connected, [(2, 2)], [], [], [(2, true, @None N, @Some N 40, 1)], @None N, @None N) /\ (i_intr_count t_cfg2 (x_init t_cfg2) t_hist2 2, i_intr_count t_cfg2 (x_init t_cfg2) t_hist3 2) = (1, 1) /\ i_pending (x_state t_cfg2 t_hist3) = [2] /\ o_done (@snd istate output (i_step t_cfg2 (x_state t_cfg2 t_hist3) (EvClose 50))) = [(2, CompErr EMaxInterruptedRetriesExceeded)] /\ @s_ops enc Framing.decoder ores Inbound.ires (@fst istate output (i_step t_cfg2 (x_state t_cfg2 t_hist3) (EvClose 50))) = [].
+Proof. exact @t_retry. Qed.
+
